@@ -621,6 +621,7 @@ fc_statements = [
         arg_decl=[
             "type(C_PTR), intent({f_intent}) :: {f_var}",
         ],
+        f_helper="array_context",
         declare=[
             "type({F_array_type}) {c_var_context}",
         ],
